@@ -122,7 +122,7 @@ func s1Meet(a, b s1.Interval) bool {
 
 func s1Lattice(rng *vkit.Rng) []float64 {
 	pi := math.Pi
-	out := []float64{-pi, vkit.Ulps(-pi, -1), -pi / 2, -1, math.Copysign(0, -1), 0, 1, pi / 2, vkit.Ulps(pi, -1), pi,
+	out := []float64{-pi, vkit.Ulps(-pi, 1), -pi / 2, -1, math.Copysign(0, -1), 0, 1, pi / 2, vkit.Ulps(pi, -1), pi,
 		vkit.Ulps(1, 1), vkit.Ulps(1, -1), 3, -3, 1e-300, -1e-300}
 	for k := 0; k < 4; k++ {
 		out = append(out, rng.Range(-pi, pi))
@@ -195,8 +195,10 @@ func s1Probes(rng *vkit.Rng, lat []float64, is ...s1.Interval) []float64 {
 // regression inputs (run first on every tier).
 //  1. FIXED by /repo 44b3e8d: Expanded returned a single point when Length + 2*margin + 2*dblEpsilon
 //     evaluated to one ulp below 2*pi; these two inputs must now keep every point.
-//  2. KNOWN: Length() is -1 for the valid non-empty interval {pi, succ(-pi)}, so the full-circle
-//     guard does not fire for margins in [pi, pi+1/2) and Expanded loses every point.
+//  2. FIXED by /repo e59a11e: Length() was -1 for the valid non-empty interval {pi, succ(-pi)}, so the
+//     full-circle guard did not fire for margins in [pi, pi+1/2) and Expanded lost every point.
+//     The third input must now keep every point; the kind stays distinct so that a regression of
+//     Length is reported under its own name.
 func s1ExpandedRegression(c *vkit.Collector) {
 	for _, w := range [][3]uint64{
 		{0xc008000000000000, 0x3ff0000000000001, 0x3ff243f6a8885a2e},
@@ -218,7 +220,7 @@ func s1ExpandedRegression(c *vkit.Collector) {
 	}
 }
 
-// the known finding is exactly the interval whose Length() is negative although it is not empty
+// a non-empty interval whose Length() is negative: the defect repaired by /repo e59a11e
 func s1ExpandedKind(a s1.Interval) string {
 	if len(s1Segs(a)) != 0 && a.Length() < 0 {
 		return "s1.Expanded.length-minus-one"
@@ -283,6 +285,9 @@ func runC19s1(c *vkit.Collector, rng *vkit.Rng, budget int) {
 			if !s1Valid(r) {
 				c.Violate("s1."+name+".valid", "result is not a valid interval", rep(0))
 			}
+		}
+		if (a.Length() < 0) != (len(s1Segs(a)) == 0) {
+			c.Violate("s1.Length.sign", "Length() is negative iff the interval is empty", rep(0))
 		}
 		if a.IsValid() != s1Valid(a) {
 			c.Violate("s1.IsValid", "IsValid disagrees with the definition of validity", rep(0))
